@@ -119,3 +119,14 @@ Example C09_end_to_end_premises_satisfiable :
   Peel.peel_inputs_ok xE xPa xSa [1; 2; 3; 4]%N = true.
 Proof. destruct e2e_premises_satisfiable as (A & B & C & D & E' & F & _). exact (conj A (conj B (conj C (conj D (conj E' F))))). Qed.
 Print Assumptions C09_end_to_end_premises_satisfiable.
+
+(* the lower bound the searches start from is sound (AntichainBound.v): pairwise incompatible edges that must be covered need as
+   many paths -- for covers and for decompositions of a flow that is positive on them *)
+From FP Require Import AntichainBound.
+Theorem C09_cover_has_at_least_antichain_many_paths :
+  forall (B : path_inst) (ignore A' : list PathEnc.edge) (P : N -> list node),
+  NoDup A' -> incompatible_edges A' ->
+  (forall e, In e A' -> In e (g_edges (p_graph B)) /\ mem_edge e ignore = false) ->
+  path_cover B ignore P -> (length A' <= p_k B)%nat.
+Proof. exact cover_needs_antichain_many_paths. Qed.
+Print Assumptions C09_cover_has_at_least_antichain_many_paths.
